@@ -275,7 +275,7 @@ func c12CondSets() []condSet {
 }
 
 func checkC12(rep *vk.Report) {
-	rep.Rule = "exhaustive grid: every subset and order of HandleErrors(E1)/HandleErrorTypes(sample in all four forms)/HandleResult(7)/HandleIf(pred) (plus duplicates, and registrations with an empty list, which configure nothing) x 72 outcomes (results 0,7,9,5 x nil, sentinels, wrapped, doubly wrapped, joined, multi-%w, value- and pointer-receiver typed, wrapped/joined typed, custom Is) x {fallback applied?, retry re-invoked?, breaker failure count through an execution and through RecordResult/RecordError}; the same for AbortOn*/CancelOn* subsets. Plus result types other than int (pointer, struct holding pointers, slice, map, interface holding a pointer): HandleResult/AbortOnResult must match separately allocated deep-equal values. Plus sequences of 4-11 different outcomes shown to ONE breaker, fallback and retry policy instance (each outcome classified on its own merits). Plus random error trees (wrap/join/multi-%w to depth 4) x random condition lists (5 000 quick, 1 000 000 thorough). Expected value from the statement's rule evaluated with errors.Is, an own type walk, DeepEqual for outcomes without error, and the predicate. Non-trivial: the outcome carries an error or a handled result and at least one condition is configured; distinct by (policy kind, condition list, outcome)."
+	rep.Rule = "exhaustive grid: every subset and order of HandleErrors(E1)/HandleErrorTypes(sample in all four forms)/HandleResult(7)/HandleIf(pred) (plus duplicates, and registrations with an empty list, which configure nothing) x 72 outcomes (results 0,7,9,5 x nil, sentinels, wrapped, doubly wrapped, joined, multi-%w, value- and pointer-receiver typed, wrapped/joined typed, custom Is) x {fallback applied?, retry re-invoked?, breaker failure count through an execution and through RecordResult/RecordError}; the same for AbortOn*/CancelOn* subsets. Plus result types other than int (pointer, struct holding pointers, slice, map, interface holding a pointer): HandleResult/AbortOnResult must match separately allocated deep-equal values. Plus retry policies that allow no retries (classification seen through their listeners, the executor verdict and ExceededError) and policies with only abort conditions (an abort condition is not a handle condition). Plus sequences of 4-11 different outcomes shown to ONE breaker, fallback and retry policy instance (each outcome classified on its own merits). Plus random error trees (wrap/join/multi-%w to depth 4) x random condition lists (5 000 quick, 1 000 000 thorough). Expected value from the statement's rule evaluated with errors.Is, an own type walk, DeepEqual for outcomes without error, and the predicate. Non-trivial: the outcome carries an error or a handled result and at least one condition is configured; distinct by (policy kind, condition list, outcome)."
 	rep.Assumptions = []string{
 		"A6: AbortOnResult/CancelOnResult are not judged for outcomes that also carry an error",
 		"A10: typed errors are produced in canonical form (value-receiver types by value, pointer-receiver types by pointer); all four sample forms are registered",
@@ -326,6 +326,12 @@ func checkC12(rep *vk.Report) {
 			return
 		}
 		c12SameInstanceSequences(rep, 9700000+i)
+	})
+	vk.Parallel(scale(rep, 3000, 100000), 16, func(i int) {
+		if rep.Skip(9800000 + i) {
+			return
+		}
+		c12ZeroRetriesAndAbortOnly(rep, 9800000+i)
 	})
 	// hedge: timing based, smaller grid run with limited parallelism
 	hbase := baseIdx + len(abortSets)*len(outs)
